@@ -114,7 +114,7 @@ if m == 0:
 return _res(r.get_result(merged)) == {{'s': (sum(vals[:m]), m)}} and len(merged) == 1"""))
   if strict_two_stage:
     # two named stages with one aggregate each: every runner folds its own keys of every arriving state
-    A(F('ob_strict_chained_two_stages', f'm: int, c: int, {vals}', pre, f"""
+    A(F('ob_strict_chained_two_stages', f'm: int, c: int, as_iter: bool, {vals}', pre, f"""
 m = _pick(m, 0, {mmax}); c = _pick(c, 0, {mmax})
 vals = {vlist}
 with _untraced():
@@ -128,7 +128,7 @@ for j in range(m):       # a worker's state holds the keys of both stages (aggre
   st = dict(pa.update_state(pa.create_state(), vals[j]))
   st.update(pb.update_state(pb.create_state(), vals[j] + 3))
   states.append(st)
-how, merged = _merge_outcome(r, states, c, False)
+how, merged = _merge_outcome(r, states, c, as_iter)      # as the orchestration does: a one-shot generator of worker states
 must_raise = c != 0 and m != c
 if must_raise or how != 'ok':
   return how == ('ValueError' if must_raise else 'ok')
@@ -152,8 +152,11 @@ for v in (v0, v1):
   st = dict(pa.update_state(pa.create_state(), v))
   st.update(pb.update_state(pb.create_state(), v + 3))
   states.append(st)
+copies = [{k: list(v) for k, v in st.items()} for st in states]     # the in-place aggregate folds into the first state it is given
 merged = r.merge_states(states, strict_states_cnt=2)
-return _res(r.get_result(merged)) == {'sa': (v0 + v1, 2), 'sb': (v0 + v1 + 6, 2)}"""))
+merged_it = r.merge_states(iter(copies))     # one-shot iterator, no strict count (orchestrate.py call sites)
+want = {'sa': (v0 + v1, 2), 'sb': (v0 + v1 + 6, 2)}
+return _res(r.get_result(merged)) == want and _res(r.get_result(merged_it)) == want"""))
   A(F('wit_strict_raises', 'm: int, c: int, v0: int', f'0 <= m <= {mmax} and 0 <= c <= {mmax} and 0 <= v0 <= 1', """
 m = _pick(m, 0, 4); c = _pick(c, 0, 4)
 t = T.new().agg(SumAgg(), output_keys='s')
@@ -212,8 +215,6 @@ def params_for(tier):
 
 
 def classify(name, call):
-  if name == 'ob_two_stage_get_result':
-    return 'chained-get-result-keyerror-two-agg-stages'
   return name
 
 
